@@ -68,6 +68,9 @@ def axioms_for(eng, fname, v, args):
         ax.append(z3.Implies(x == 0, v == 0))
         ax.append(z3.Implies(z3.And(x > 0, x < PI_LO / 2), v >= x))
         ax.append(z3.Implies(z3.And(x < 0, x > -PI_LO / 2), v <= x))
+        half = realval(0.5)
+        ax.append(z3.Implies(z3.And(x >= 0, x <= half), v <= x + x * x * x / 2))
+        ax.append(z3.Implies(z3.And(x <= 0, x >= -half), v >= x + x * x * x / 2))
         for v2, (y,) in _others(eng, 'tan', v):
             ax.append(z3.Implies(x == -y, v == -v2))
             ax.append(z3.Implies(z3.And(x > -PI_LO / 2, x < PI_LO / 2, y > -PI_LO / 2, y < PI_LO / 2, x < y), v < v2))
